@@ -444,7 +444,7 @@ func Value(tag string, p any) {
 		s := "V " + tag + " iface valid=" + b2s(w.IsValid())
 		if w.IsValid() {
 			s += " dyn=" + strconv.Quote(w.Type().String()) + " same=" + b2s(Dump(w) == Dump(reflect.ValueOf(v.Interface()))) + " de=" + b2s(reflect.DeepEqual(x, v.Interface()))
-			if w.Comparable() {
+			if w.Comparable() && w.Type().Comparable() {
 				s += " eq=" + b2s(x == v.Interface()) + " veq=" + b2s(w.Equal(reflect.ValueOf(v.Interface())))
 			}
 		}
@@ -892,6 +892,24 @@ func callable(ft reflect.Type) bool {
 			if hasZeroSize(ft.Out(i), 0) {
 				return false
 			}
+		}
+	}
+	if Avoid["C15-call-return-overflow"] {
+		// results larger than 16 bytes are written past an 8-byte heap block (16-byte allocation granule)
+		var total uintptr
+		for i := 0; i < ft.NumOut(); i++ {
+			o := ft.Out(i)
+			sz, al := o.Size(), uintptr(o.Align())
+			if !funcFree(o) {
+				sz *= 2
+			}
+			if al == 0 {
+				al = 1
+			}
+			total = (total+al-1)/al*al + sz
+		}
+		if total > 16 {
+			return false
 		}
 	}
 	return true
